@@ -233,3 +233,70 @@ def run(run, P):
     run.instance('R-RESP', '%s: Block1 continuation' % FUNC, n=1 if seen['sendblock'] else 0)
     run.require(seen['dup'] > 0, 'R-RESP: the duplicate test rcvd->mid == session->last_con_mid was not found in %s()' % FUNC)
     run.require(seen['handler'] > 0, 'R-RESP: no call of context->response_handler found in %s()' % FUNC)
+
+
+def run_async_pending(run, P):
+    """R-RESP (pending async): an async entry's `delay` field is a point in time, with 0 meaning "until the application triggers it".  The entry
+    is PENDING when delay == 0 or delay > now, DUE when delay != 0 and delay <= now.  Wherever the library branches on that field, the
+    decision separates the two: executed abstractly for delay in {0, now - 1, now, now + 1}, the run of delay/now tests in a function sends
+    the pending values and the due values to disjoint sets of successors.  handle_request() uses the decision to recognise a retransmitted
+    request while its response is still outstanding (answered with a fresh Empty ACK, not handed to the handler again): with delay == 0 on
+    the wrong side, a retransmission after a lost ACK reaches the application a second time and the request is answered twice."""
+    from rules.r_uriclass import _eval, Unfold
+    from core.prog import succs
+    run.rule('R-RESP')
+    NOW = 1000
+    VALUES = {'pending': (0, NOW + 1), 'due': (NOW - 1, NOW)}
+    n = 0
+    for f in sorted(P.lib_funcs(), key=lambda f: f['name']):
+        B = f['B']
+
+        def subst(t, dval):
+            if isinstance(t, dict):
+                if t.get('k') == 'mem' and t.get('f') == 'delay' and t.get('rec') == 'coap_async_t':
+                    return {'k': 'int', 'v': dval, 't': 'long'}
+                if t.get('k') == 'var' and t.get('n') == 'now':
+                    return {'k': 'int', 'v': NOW, 't': 'long'}
+                return dict((k, subst(v, dval)) for k, v in t.items())
+            if isinstance(t, list):
+                return [subst(v, dval) for v in t]
+            return t
+
+        def testing(bid):
+            c = (B[bid].get('term') or {}).get('cond')
+            if c is None or len(B[bid]['succ']) != 2:
+                return False
+            if not any(isinstance(x, dict) and x.get('k') == 'mem' and x.get('f') == 'delay' and x.get('rec') == 'coap_async_t' for x in walk(c)):
+                return False
+            try:
+                _eval(P, subst(c, 1), {})
+                return True
+            except Unfold:
+                return False
+        tests = [b['id'] for b in f['blocks'] if testing(b['id'])]
+        if not tests:
+            continue
+        # entry of a run of tests: a testing block none of whose predecessors is a testing block
+        preds = dict((t, [b['id'] for b in f['blocks'] if t in succs(b)]) for t in tests)
+        for t0 in tests:
+            if any(p in tests for p in preds[t0]):
+                continue
+            n += 1
+            target = {}
+            for cls, vals in VALUES.items():
+                for dv in vals:
+                    cur, steps = t0, 0
+                    while cur in tests and steps < 20:
+                        steps += 1
+                        v = _eval(P, subst(B[cur]['term']['cond'], dv), {})
+                        cur = B[cur]['succ'][0] if v else B[cur]['succ'][1]
+                    target.setdefault(cls, set()).add(cur)
+            ok = not (target['pending'] & target['due'])
+            loc = B[t0]['term'].get('loc')
+            run.instance('R-RESP', '%s: pending / due async entries are told apart (%s)' % (f['name'], (loc or '').rsplit('/', 1)[-1]))
+            run.oblige('R-RESP', ok, '%s:async-pending-decision' % f['name'])
+            if not ok:
+                run.violation('R-RESP', f['name'], loc, 'async-pending-and-due-not-separated',
+                              'the tests of async->delay starting here send a pending entry (delay 0 = until triggered, or delay in the future) and a due entry (delay in the '
+                              'past) to the same successor: an entry that waits for coap_async_trigger() is treated like one whose time has come', [])
+    run.require(n >= (2 if run.cfg == 'base' else 0) or run.fixture_mode, 'R-RESP(pending async): fewer than 2 decisions on async->delay found')
